@@ -918,6 +918,213 @@ pub fn run_history<S: Sys>(unique: bool, ops: &[ObsOp], follow_upgrade: bool) ->
     None
 }
 
+// ---------------------------------------------------------------- the last owner is dropped while a panic unwinds (C03, C02)
+/// The owner (unique Observable, or the only SharedObservable) is dropped by the unwinding of a panic; the subscriber that
+/// was pending must be woken and must see the end of the stream, exactly as after an ordinary drop.
+pub fn run_unwind_drop(is_async: bool, unique: bool, polled_before: bool) -> Option<ObsFailure> {
+    let cls = format!("{}/drop-while-unwinding:{}", if is_async { "async-lock" } else { "sync" }, if unique { "unique" } else { "shared" });
+    let fl = Flag::new();
+    let w = flag_waker(&fl);
+    let mut cx = Context::from_waker(&w);
+    macro_rules! body {
+        ($owner:expr, $sub:expr) => {{
+            let owner = $owner;
+            let mut sub = $sub;
+            if polled_before {
+                let r = Pin::new(&mut sub).poll_next(&mut cx);
+                if !matches!(r, Poll::Pending) {
+                    return Some(ObsFailure { property: "C01", classification: cls, what: "a fresh subscriber is not pending".into(), step: 0, expected: "Pending".into(), observed: format!("{:?}", r) });
+                }
+            }
+            let res = std::panic::catch_unwind(std::panic::AssertUnwindSafe(move || {
+                let _o = owner;
+                panic!("unwinding with the owner on the stack");
+            }));
+            assert!(res.is_err());
+            if polled_before && !fl.is_set() {
+                return Some(ObsFailure { property: "C02+C03", classification: cls, what: "the owner was dropped by an unwinding panic and the pending subscriber was not woken".into(), step: 1, expected: "woken".into(), observed: "not woken".into() });
+            }
+            let r = Pin::new(&mut sub).poll_next(&mut cx);
+            if !matches!(r, Poll::Ready(None)) {
+                return Some(ObsFailure { property: "C03", classification: cls, what: "the owner was dropped by an unwinding panic and the subscriber does not see the end of the stream".into(), step: 2, expected: "Ready(None)".into(), observed: format!("{:?}", r) });
+            }
+            None
+        }};
+    }
+    let v = Val { key: 0, tag: 0 };
+    match (is_async, unique) {
+        (false, true) => {
+            let o = Observable::new(v);
+            let s = Observable::subscribe(&o);
+            body!(o, s)
+        }
+        (false, false) => {
+            let o = SharedObservable::new(v);
+            let s = o.subscribe();
+            body!(o, s)
+        }
+        (true, true) => {
+            let o = Observable::<Val, AsyncLock>::new_async(v);
+            let s = Observable::subscribe_async(&o);
+            body!(o, s)
+        }
+        (true, false) => {
+            let o = SharedObservable::<Val, AsyncLock>::new_async(v);
+            let s = now(o.subscribe());
+            body!(o, s)
+        }
+    }
+}
+
+// ---------------------------------------------------------------- several operations through ONE write guard (C01)
+#[derive(Clone, Debug, PartialEq, Eq, Hash)]
+pub enum GOp {
+    Set(u8),
+    SetIfNotEq(u8),
+    SetIfHashNotEq(u8),
+    /// update(|x| x.tag = fresh): equality and hash unchanged
+    UpdateTag,
+    /// update(|x| { x.key = k; x.tag = fresh }): equality and hash change
+    UpdateKey(u8),
+    UpdateIf(bool),
+}
+impl GOp {
+    pub fn kind(&self) -> &'static str {
+        match self {
+            GOp::Set(_) => "Set",
+            GOp::SetIfNotEq(_) => "SetIfNotEq",
+            GOp::SetIfHashNotEq(_) => "SetIfHashNotEq",
+            GOp::UpdateTag => "UpdateTag",
+            GOp::UpdateKey(_) => "UpdateKey",
+            GOp::UpdateIf(_) => "UpdateIf",
+        }
+    }
+    pub fn all() -> Vec<GOp> {
+        vec![GOp::Set(0), GOp::Set(1), GOp::SetIfNotEq(0), GOp::SetIfNotEq(1), GOp::SetIfHashNotEq(0), GOp::SetIfHashNotEq(1), GOp::UpdateTag, GOp::UpdateKey(0), GOp::UpdateKey(1), GOp::UpdateIf(true), GOp::UpdateIf(false)]
+    }
+    pub fn parse(s: &str) -> Option<GOp> {
+        GOp::all().into_iter().find(|g| format!("{:?}", g) == s.trim())
+    }
+}
+/// One write guard on a SharedObservable (sync or async-lock), `ops` applied through it, guard dropped; every result, the
+/// final value and the subscriber's readiness afterwards are compared with the same calls made one by one.
+pub fn run_guard_session(is_async: bool, ops: &[GOp]) -> Option<ObsFailure> {
+    let cls = |k: &str| format!("{}/guard-session:{}", if is_async { "async-lock" } else { "sync" }, k);
+    macro_rules! fail {
+        ($k:expr, $what:expr, $exp:expr, $obs:expr) => {
+            return Some(ObsFailure { property: if is_async { "C01+C16" } else { "C01" }, classification: cls($k), what: $what.to_string(), step: 0, expected: $exp, observed: $obs })
+        };
+    }
+    let mut val = Val { key: 0, tag: 0 };
+    let mut fresh: u32 = 1;
+    let mut notified = false;
+    macro_rules! session {
+        ($owner:expr, $sub:expr, $guard:expr) => {{
+            let mut g = $guard;
+            for op in ops {
+                let tag = fresh;
+                fresh += 1;
+                match op {
+                    GOp::Set(k) => {
+                        let nv = Val { key: *k, tag };
+                        let r = eyeball::ObservableWriteGuard::set(&mut g, nv.clone());
+                        if !same(&r, &val) {
+                            fail!(op.kind(), "set through a write guard did not return the previous value", format!("{:?}", val), format!("{:?}", r));
+                        }
+                        val = nv;
+                        notified = true;
+                    }
+                    GOp::SetIfNotEq(k) | GOp::SetIfHashNotEq(k) => {
+                        let nv = Val { key: *k, tag };
+                        let r = if matches!(op, GOp::SetIfNotEq(_)) { eyeball::ObservableWriteGuard::set_if_not_eq(&mut g, nv.clone()) } else { eyeball::ObservableWriteGuard::set_if_hash_not_eq(&mut g, nv.clone()) };
+                        let exp = if *k != val.key { Some(val.clone()) } else { None };
+                        let ok = match (&r, &exp) {
+                            (Some(a), Some(b)) => same(a, b),
+                            (None, None) => true,
+                            _ => false,
+                        };
+                        if !ok {
+                            fail!(op.kind(), "a conditional setter through a write guard returned the wrong result (Some(previous) exactly when the new value differs)", format!("{:?}", exp), format!("{:?}", r));
+                        }
+                        if exp.is_some() {
+                            val = nv;
+                            notified = true;
+                        }
+                    }
+                    GOp::UpdateTag => {
+                        eyeball::ObservableWriteGuard::update(&mut g, |x| x.tag = tag);
+                        val.tag = tag;
+                        notified = true;
+                    }
+                    GOp::UpdateKey(k) => {
+                        eyeball::ObservableWriteGuard::update(&mut g, |x| {
+                            x.key = *k;
+                            x.tag = tag
+                        });
+                        val = Val { key: *k, tag };
+                        notified = true;
+                    }
+                    GOp::UpdateIf(b) => {
+                        eyeball::ObservableWriteGuard::update_if(&mut g, |x| {
+                            x.tag = tag;
+                            *b
+                        });
+                        val.tag = tag;
+                        if *b {
+                            notified = true;
+                        }
+                    }
+                }
+                if !same(&*g, &val) {
+                    fail!(op.kind(), "the value seen through the write guard is not the one most recently stored", format!("{:?}", val), format!("{:?}", &*g));
+                }
+            }
+            drop(g);
+        }};
+    }
+    let fl = Flag::new();
+    if is_async {
+        let owner = SharedObservable::<Val, AsyncLock>::new_async(val.clone());
+        let mut sub = now(owner.subscribe());
+        session!(owner, sub, now(owner.write()));
+        let got = now(owner.get());
+        if !same(&got, &val) {
+            fail!("final", "after the guard was dropped the stored value is not the one most recently stored", format!("{:?}", val), format!("{:?}", got));
+        }
+        let w = flag_waker(&fl);
+        let mut cx = Context::from_waker(&w);
+        let r = Pin::new(&mut sub).poll_next(&mut cx);
+        let ok = match (&r, notified) {
+            (Poll::Ready(Some(v)), true) => same(v, &val),
+            (Poll::Pending, false) => true,
+            _ => false,
+        };
+        if !ok {
+            fail!("readiness", "after the guard was dropped the subscriber is ready exactly when a notifying operation happened, with the latest value", if notified { format!("Ready(Some({:?}))", val) } else { "Pending".to_string() }, format!("{:?}", r));
+        }
+    } else {
+        let owner = SharedObservable::new(val.clone());
+        let mut sub = owner.subscribe();
+        session!(owner, sub, owner.write());
+        let got = owner.get();
+        if !same(&got, &val) {
+            fail!("final", "after the guard was dropped the stored value is not the one most recently stored", format!("{:?}", val), format!("{:?}", got));
+        }
+        let w = flag_waker(&fl);
+        let mut cx = Context::from_waker(&w);
+        let r = Pin::new(&mut sub).poll_next(&mut cx);
+        let ok = match (&r, notified) {
+            (Poll::Ready(Some(v)), true) => same(v, &val),
+            (Poll::Pending, false) => true,
+            _ => false,
+        };
+        if !ok {
+            fail!("readiness", "after the guard was dropped the subscriber is ready exactly when a notifying operation happened, with the latest value", if notified { format!("Ready(Some({:?}))", val) } else { "Pending".to_string() }, format!("{:?}", r));
+        }
+    }
+    None
+}
+
 // ---------------------------------------------------------------- async-lock flavour: operations queued behind a held guard (C16)
 #[derive(Clone, Debug, PartialEq, Eq, Hash)]
 pub enum QOp {
